@@ -59,7 +59,15 @@ func (cc *checkCtx) replay(o *Obligation) (string, bool) {
 	}
 	vc := cc.findVC(o)
 	if vc != nil {
-		cc.modelAndTest(vc, o, rf)
+		func() {
+			defer func() {
+				if r := recover(); r != nil {
+					rf.ModelNote = fmt.Sprintf("replay harness failed for this obligation (%v); no-failing-input-found", r)
+					rf.Confirmed = false
+				}
+			}()
+			cc.modelAndTest(vc, o, rf)
+		}()
 	} else {
 		rf.ModelNote = "obligation is not a per-function VC (lemma / scan / bounded decider); see solver_output"
 		rf.SolverOut = o.Desc
